@@ -9,7 +9,11 @@ from .fmtrun import run_model_fmt, unhex
 from .props_zone import site_sig, CivilOracle, clamp
 from .props_fixed import spec_abbr, spec_name
 
-THEOREMS = {'C07': [], 'C08': [], 'C09': []}
+THEOREMS = {'C07': ['Cctz.C07.int_roundtrip', 'Cctz.C07.field2_roundtrip', 'Cctz.C07.offset_roundtrip', 'Cctz.C07.offset_24h_counterexample',
+                    'Cctz.C07.fraction_roundtrip', 'Cctz.C07.percent_s_roundtrip'],
+            'C08': [],
+            'C09': ['Cctz.C09.constants', 'Cctz.C09.parseInt_spec', 'Cctz.C09.parseInt_counterexample', 'Cctz.C09.field_ranges', 'Cctz.C09.subseconds',
+                    'Cctz.C09.offset', 'Cctz.C09.percent_s', 'Cctz.C09.parse_safe']}
 hx = Z.hx
 
 
